@@ -38,6 +38,8 @@ var readNames = []string{
 	// outside logs
 	"../secret.txt", "../whatap.conf", "sub/../../secret.txt", "../../{home}/secret.txt", "../../{out}/passwd", "..", "../", "../logs/../secret.txt",
 	"./../secret.txt", "sub/../../../{out}/passwd", "../logs", "../../{home}/logs/../whatap.conf",
+	// siblings of the logs directory whose names merely START with "logs" (a textual prefix test is not containment)
+	"../logs-archive/old.log", "../logs2/x.log", "../logsecret.txt", "../logs.bak/a.log", "sub/../../logs-archive/old.log",
 }
 
 func fileBody(tag string, n int) []byte {
@@ -83,6 +85,11 @@ func runRead(c ReadCase) *pbt.Result {
 	must(os.WriteFile(filepath.Join(home, "secret.txt"), fileBody("SECRET", size(2)), 0o644))
 	must(os.WriteFile(filepath.Join(home, "whatap.conf"), fileBody("license=", size(3)), 0o644))
 	must(os.WriteFile(filepath.Join(out, "passwd"), fileBody("root:x:", size(4)), 0o644))
+	for _, sib := range []string{"logs-archive/old.log", "logs2/x.log", "logs.bak/a.log"} {
+		must(os.MkdirAll(filepath.Dir(filepath.Join(home, sib)), 0o755))
+		must(os.WriteFile(filepath.Join(home, sib), fileBody("ARCHIVED", size(2)), 0o644))
+	}
+	must(os.WriteFile(filepath.Join(home, "logsecret.txt"), fileBody("SECRET2", size(3)), 0o644))
 	l.Error("conn fail ", "{m1}", "first line", ";end")
 	cur := fmt.Sprintf("wt-boot-%s.log", ymd(9000))
 
@@ -184,7 +191,7 @@ func drawRead(t *rapid.T) ReadCase {
 
 var specRead = pbt.Register(pbt.Spec[ReadCase]{
 	Prop: "C17", Name: "read-window",
-	Rule: "a fresh home with files of generated sizes inside logs/ (plain, empty, nested, the logger's current file) and outside it (home/secret.txt, home/whatap.conf, a sibling directory); 1-10 Read(name, endpos, length) calls with names from a catalogue of 29 templates (inside, unreadable, and names with .. that resolve outside logs/), end positions negative / 0 / around the file size / beyond / extreme, lengths 1.. around the size .. extreme; oracle: a name that resolves lexically outside <home>/logs returns nil; otherwise nil or Text == content[Before:Before+len(Text)] with len(Text) <= length; non-trivial = at least one non-empty window served and at least one name pointing at an existing file outside logs/; distinct by case",
+	Rule:  "a fresh home with files of generated sizes inside logs/ (plain, empty, nested, the logger's current file) and outside it (home/secret.txt, home/whatap.conf, a sibling directory); 1-10 Read(name, endpos, length) calls with names from a catalogue of 34 templates (inside, unreadable, and names with .. that resolve outside logs/), end positions negative / 0 / around the file size / beyond / extreme, lengths 1.. around the size .. extreme; oracle: a name that resolves lexically outside <home>/logs returns nil; otherwise nil or Text == content[Before:Before+len(Text)] with len(Text) <= length; non-trivial = at least one non-empty window served and at least one name pointing at an existing file outside logs/; distinct by case",
 	Quick: 1500, Thorough: 60000,
 	Draw: drawRead,
 	Run:  runRead,
